@@ -370,3 +370,199 @@ pub fn ob_insert_full_load<S: Src, const N: usize, const N2: usize>(s: &mut S) -
     }
     Ok(())
 }
+
+// ---------------------------------------------------------------------------
+// further bounded-inductive obligations (also run natively at larger sizes)
+// ---------------------------------------------------------------------------
+
+/// clear (no drop glue): every bucket EMPTY, counters reset, same allocation
+pub fn ob_clear<S: Src, const N: usize>(s: &mut S) -> Chk {
+    let st = match draw_state::<S, N>(s, false) {
+        Some(st) => st,
+        None => return Ok(()),
+    };
+    let mut t = build(&st);
+    let ctrl0 = t.table.ctrl.as_ptr();
+    t.clear();
+    ensure!(t.table.ctrl.as_ptr() == ctrl0 && t.buckets() == N, "clear keeps the allocation");
+    let st2 = read_state::<N>(&t)?;
+    ensure!(st2.items() == 0, "clear removes every element");
+    if st.items() == 0 {
+        // documented fast path: clearing an already empty table does nothing (tombstones stay accounted for)
+        ensure!(st2.same_except(&st, N), "clear of an empty table leaves it as it was");
+    } else {
+        ensure!(st2.deleted() == 0, "clear leaves only EMPTY buckets");
+        ensure!(t.table.growth_left == St::<N>::CAP, "clear restores the full capacity");
+    }
+    Ok(())
+}
+
+/// RawIter::fold visits exactly the full buckets (each once) from any prefix position of next()
+pub fn ob_iter_fold<S: Src, const N: usize>(s: &mut S) -> Chk {
+    let st = match draw_state::<S, N>(s, false) {
+        Some(st) => st,
+        None => return Ok(()),
+    };
+    let t = build(&st);
+    let total = st.items();
+    let cut = s.below(N + 1);
+    let mut it = unsafe { t.iter() };
+    let mut seen = [0u8; N];
+    let mut n = 0;
+    for_upto!(k, N, {
+        if k < cut {
+            if let Some(b) = it.next() {
+                let i = unsafe { t.bucket_index(&b) };
+                ensure!(i < N, "RawIter::next yields buckets of the table");
+                seen[i] += 1;
+                n += 1;
+            }
+        }
+    });
+    let it2 = it.clone();
+    let (cnt, seen2) = it.fold((0usize, seen), |(c, mut sn), b| {
+        let i = unsafe { t.bucket_index(&b) };
+        if i < N {
+            sn[i] += 1;
+        }
+        (c + 1, sn)
+    });
+    ensure!(n + cnt == total, "fold visits exactly the remaining elements");
+    ensure!(it2.len() == cnt, "a cloned iterator reports the same remaining length");
+    for_upto!(i, N, {
+        ensure!(seen2[i] == (if st.kind[i] == K_FULL { 1 } else { 0 }), "next() followed by fold() visits every full bucket exactly once and nothing else");
+    });
+    Ok(())
+}
+
+/// drain consumed to any cut then dropped: a valid empty table in the same allocation, full capacity
+pub fn ob_drain<S: Src, const N: usize>(s: &mut S) -> Chk {
+    let st = match draw_state::<S, N>(s, false) {
+        Some(st) => st,
+        None => return Ok(()),
+    };
+    let mut t = build(&st);
+    let ctrl0 = t.table.ctrl.as_ptr();
+    let cut = s.below(N + 1);
+    let leak = s.bool();
+    let mut got = 0;
+    {
+        let mut d = t.drain();
+        for_upto!(k, N, {
+            if k < cut {
+                if let Some(v) = d.next() {
+                    ensure!(st.count(v) > 0, "drain yields stored elements");
+                    got += 1;
+                }
+            }
+        });
+        ensure!(d.len() == st.items() - got, "RawDrain::size_hint is the true remaining count");
+        if leak {
+            core::mem::forget(d);
+        }
+    }
+    ensure!(got == (if cut < st.items() { cut } else { st.items() }), "drain yields one element per call until exhausted");
+    if leak {
+        ensure!(t.table.bucket_mask == 0 && t.table.items == 0, "a leaked drain leaves a valid empty (unallocated) table");
+    } else {
+        ensure!(t.table.ctrl.as_ptr() == ctrl0 && t.buckets() == N, "a dropped drain hands the allocation back");
+        let st2 = read_state::<N>(&t)?;
+        ensure!(st2.items() == 0 && st2.deleted() == 0 && t.table.growth_left == St::<N>::CAP, "after drain: empty, no tombstones, full capacity");
+    }
+    Ok(())
+}
+
+/// clone: same abstract state in a new allocation; the source is untouched
+pub fn ob_clone<S: Src, const N: usize>(s: &mut S) -> Chk {
+    let st = match draw_state::<S, N>(s, false) {
+        Some(st) => st,
+        None => return Ok(()),
+    };
+    let t = build(&st);
+    let c = t.clone();
+    ensure!(c.table.ctrl.as_ptr() != t.table.ctrl.as_ptr(), "clone owns its own allocation");
+    let a = read_state::<N>(&c)?;
+    let b = read_state::<N>(&t)?;
+    ensure!(a.same_except(&st, N) && b.same_except(&st, N), "clone reproduces every bucket; the source is unchanged");
+    Ok(())
+}
+
+/// get_many_mut for two requests: both resolve like find; same entry => panic (here: the harness
+/// checks the pointer comparison outcome through get_many_mut_pointers' contract)
+pub fn ob_get_many2<S: Src, const N: usize>(s: &mut S) -> Chk {
+    let st = match draw_state::<S, N>(s, true) {
+        Some(st) => st,
+        None => return Ok(()),
+    };
+    req!(s, st.distinct());
+    let (a, b) = (s.u64(), s.u64());
+    let mut t = build(&st);
+    let ptrs = unsafe { t.get_many_mut_pointers([hash_of(a), hash_of(b)], |i, x| *x == (if i == 0 { a } else { b })) };
+    match ptrs[0] {
+        Some(p) => ensure!(st.count(a) == 1 && unsafe { *p.as_ptr() } == a, "get_many_mut: request 0 resolves to its own entry"),
+        None => ensure!(st.count(a) == 0, "get_many_mut: None only for an absent key"),
+    }
+    match ptrs[1] {
+        Some(p) => ensure!(st.count(b) == 1 && unsafe { *p.as_ptr() } == b, "get_many_mut: request 1 resolves to its own entry"),
+        None => ensure!(st.count(b) == 0, "get_many_mut: None only for an absent key"),
+    }
+    if let (Some(p), Some(q)) = (ptrs[0], ptrs[1]) {
+        ensure!((p == q) == (a == b), "get_many_mut: two requests share an entry exactly when they ask for the same key");
+    }
+    Ok(())
+}
+
+/// iter_hash(h): every full bucket holding an element with hash h, none twice, only full buckets
+pub fn ob_iter_hash<S: Src, const N: usize>(s: &mut S) -> Chk {
+    let st = match draw_state::<S, N>(s, true) {
+        Some(st) => st,
+        None => return Ok(()),
+    };
+    let v = s.u64();
+    let h = hash_of(v);
+    let t = build(&st);
+    let mut seen = [0u8; N];
+    let mut it = unsafe { t.iter_hash(h) };
+    // a correct iterator reports each bucket at most once: N calls suffice, the next one must be None
+    for_upto!(k, N, {
+        if let Some(b) = it.next() {
+            let i = unsafe { t.bucket_index(&b) };
+            ensure!(i < N && st.kind[i] == K_FULL, "iter_hash yields full buckets of the table only");
+            seen[i] += 1;
+        }
+    });
+    ensure!(it.next().is_none(), "iter_hash terminates");
+    for_upto!(i, N, {
+        ensure!(seen[i] <= 1, "iter_hash yields no bucket twice");
+        if st.kind[i] == K_FULL && hash_of(st.val[i]) == h {
+            ensure!(seen[i] == 1, "iter_hash yields every stored element that was inserted with this hash");
+        }
+    });
+    Ok(())
+}
+
+/// replace_bucket_with: Some(new) keeps the slot (control byte, mirror, counters restored), None removes
+pub fn ob_replace_bucket_with<S: Src, const N: usize>(s: &mut S) -> Chk {
+    let st = match draw_state::<S, N>(s, true) {
+        Some(st) => st,
+        None => return Ok(()),
+    };
+    let i = s.below(N);
+    req!(s, st.kind[i] == K_FULL);
+    let keep = s.bool();
+    // the replacement keeps the hash (same position bits and tag), as the Entry API guarantees (same key)
+    let nv = st.val[i] ^ ((s.u64() & 0xFFFF) << 16);
+    let mut t = build(&st);
+    let r = unsafe { t.replace_bucket_with(t.bucket(i), |old| if keep && old == st.val[i] { Some(nv) } else { None }) };
+    ensure!(r == keep, "replace_bucket_with returns whether the closure kept the element");
+    let st2 = read_state::<N>(&t)?;
+    ensure!(st2.same_except(&st, i), "replace_bucket_with touches no other bucket");
+    if keep {
+        ensure!(st2.kind[i] == K_FULL && st2.val[i] == nv, "replace_bucket_with(Some): the slot holds the new element");
+        ensure!(t.table.growth_left == st.growth_left(), "replace_bucket_with(Some): growth_left restored");
+    } else {
+        ensure!(st2.kind[i] != K_FULL, "replace_bucket_with(None): the element is removed");
+    }
+    ensure!(st2.reach_all(), "replace_bucket_with keeps every element reachable");
+    Ok(())
+}
